@@ -10,6 +10,10 @@
 //! commitment transaction confirms `c1` blocks, an HTLC transaction `c2` blocks after it first
 //! reached a broadcaster; the adversary's competing spend wins ties).
 //!
+//! Trace records: case, offer, show, forward, claim, resolve, bcast, block (with what it confirms), blocks (two or
+//! more empty blocks in a row with nothing recorded in between: {"h": height of the last one, "n": how many}),
+//! co (B sent splice_locked / channel_ready / announcement_signatures on this block), closed, restart, end, skip.
+//!
 //! usage: deadlines --scripts FILE --out TRACE [--run-offset N]
 //! script (one JSON object per line):
 //!   {"role":"final"|"fwd", "offu":Eu-h, "offd":Ed-h, "d":cltv_expiry_delta of B,
@@ -984,6 +988,22 @@ fn main() {
 			}
 		}
 		if evs.iter().any(|e| e["ev"] == "skip") { skipped += 1; }
+		// two or more empty blocks in a row with nothing recorded in between are written as one record
+		let mut merged: Vec<Value> = Vec::new();
+		for e in evs.into_iter() {
+			let empty = e["ev"] == "block" && e["conf"].as_array().map_or(false, |c| c.is_empty());
+			if empty {
+				if let Some(last) = merged.last_mut() {
+					if last["ev"] == "blocks" || (last["ev"] == "block" && last["conf"].as_array().map_or(false, |c| c.is_empty())) {
+						let n = if last["ev"] == "blocks" { last["n"].as_u64().unwrap() } else { 1 };
+						*last = json!({"ev":"blocks","h":e["h"],"n":n + 1});
+						continue;
+					}
+				}
+			}
+			merged.push(e);
+		}
+		let evs = merged;
 		for (q, e) in evs.into_iter().enumerate() {
 			let mut e = e;
 			e["run"] = json!(run);
